@@ -511,9 +511,9 @@ func (g *sgen) element(depth int) string {
 	case "use", "image":
 		as = g.geom("x", "y", "width", "height")
 		h := "href"
-		if g.known && g.r.Bool() {
+		if g.hasXl && g.r.Bool() { // (K131 repaired: xlink:href is kept; only with the prefix declared on the root)
 			h = "xlink:href"
-			g.hit("known:xlink-href")
+			g.hit("xlink-href")
 		}
 		as = append(as, attrSpec{h, g.r.Pick("#a1", "#p1", "img.png", "a.svg#x", "data:image/png;base64,AAAA", "x?a=1&b=2")})
 		g.presentation(&as)
